@@ -171,6 +171,30 @@ func buildCatalogue() []item {
 		d.specs[pos].IssuerCN = &own
 		d.specs[pos].SignedBy = d.specs[pos].Key
 	})
+	add("self-signed-twin-inserted-below-a-ca", false, midOnly, func(d *desc, pos int) {
+		// a self-signed edition of the CA at pos (same subject and key) is put in
+		// front of it: every link still verifies by name and key, but a
+		// self-signed certificate now sits in the middle of the chain
+		spec := d.specs[pos]
+		d.post = append(d.post, func(c []*x509.Certificate) []*x509.Certificate {
+			if pos >= len(c) {
+				return c
+			}
+			twin := *spec
+			twin.IssuerCN, twin.SignedBy = nil, nil
+			twin.Serial = new(big.Int).Add(c[pos].SerialNumber, big.NewInt(700))
+			tc, err := pki.Issue(&twin, nil, nil)
+			if err != nil {
+				return c
+			}
+			out := append([]*x509.Certificate{}, c[:pos]...)
+			out = append(out, tc)
+			return append(out, c[pos:]...)
+		})
+	})
+	// self-issued but not self-signed: the CA carries the same name as the CA
+	// that certified it (another key)
+	add("ca-named-like-its-issuer", true, midOnly, func(d *desc, pos int) { d.specs[pos].CN = d.specs[pos+1].CN })
 	add("single-cert-not-self-signed", false, func(pos, n int, ts bool) bool { return n == 1 }, func(d *desc, pos int) {
 		n := "some-issuer"
 		d.specs[0].IssuerCN = &n
